@@ -230,3 +230,199 @@ pub fn run<const N: usize>(ctx: &mut Ctx, with_sha: bool, srs_k: u32, seed: u64,
     }
     ctx.set_extra(&format!("agg_seconds_n{N}_sha{with_sha}"), json!(t0.elapsed().as_secs()));
 }
+
+// ---------------------------------------------------------------------------------------------
+// Layout of the aggregator: sections of the aggregated proof, instance vectors of prover and
+// verifier, the vectors of the inner-product argument — on inner proofs of the configurable dummy
+// circuit (`carry.rs`), recomputed here with the repository's public functions and compared with
+// the Lean model (`agg-layout` line) and with the real aggregated proof bytes.
+// ---------------------------------------------------------------------------------------------
+
+/// `N` inner proofs of the dummy circuit with `nf` queried + `n_unqueried` never-queried fixed
+/// columns and `na` advice columns; `expect_ok`: whether a key for which every fixed commitment is
+/// opened (the aggregator pairs committed scalars with ALL fixed bases of the key).
+pub fn run_dummy<const N: usize>(ctx: &mut Ctx, nf: usize, na: usize, n_unqueried: usize, srs_k: u32, seed: u64, n_corrupt: usize) {
+    use crate::carry::{acc_text, names_text, DummyCircuit};
+    use crate::verify::{acc_view, base_key};
+    use group::Group;
+    use midnight_aggregator::verif_hooks::LightBlstrsEmulation as Light;
+    use midnight_circuits::{
+        types::Instantiable,
+        verifier::{fixed_bases, Accumulator, AssignedAccumulator, AssignedMsm, AssignedVk, Msm},
+    };
+    use midnight_curves::G1Projective as C;
+    use midnight_proofs::{
+        plonk::{create_proof, keygen_pk, keygen_vk_with_k, prepare},
+        poly::kzg::KZGCommitmentScheme,
+        transcript::Hashable,
+    };
+    type Scheme = KZGCommitmentScheme<Bls12>;
+    type H = LightPoseidonFS<F>;
+
+    let mut rng = ChaCha8Rng::seed_from_u64(seed);
+    let key = format!("agg-dummy:n={N}:nf={nf}:na={na}:unqueried={n_unqueried}");
+    let desc = json!({"nb_proofs": N, "fixed_columns": nf, "advice_columns": na, "unqueried_fixed_columns": n_unqueried, "seed": seed,
+        "inner": "harness/c20/src/carry.rs DummyCircuit (committed + plain instance column, two public inputs)"});
+    let mut srs = ParamsKZG::<Bls12>::unsafe_setup(srs_k, ChaCha8Rng::seed_from_u64(seed + 1));
+    let circuits: Vec<DummyCircuit> = (0..N).map(|i| DummyCircuit::new_opt(nf, na, n_unqueried, true, seed, seed + 10 + i as u64)).collect();
+    let mut inner_k = 4;
+    let (inner_srs, pk) = loop {
+        let mut p = srs.clone();
+        p.downsize(inner_k);
+        match keygen_vk_with_k::<F, Scheme, _>(&p, &circuits[0], inner_k) {
+            Ok(vk) => break (p, keygen_pk(vk, &circuits[0]).expect("keygen_pk")),
+            Err(_) if inner_k < 8 => inner_k += 1,
+            Err(e) => {
+                ctx.oracle_fail(&format!("{key}:keygen"), "key generation of the dummy circuit failed", json!({"case": desc, "error": format!("{e:?}")}));
+                return;
+            }
+        }
+    };
+    let vk = pk.get_vk().clone();
+    let all_instances: [Vec<F>; N] = core::array::from_fn(|i| circuits[i].instances()[1].clone());
+    let proofs: [Vec<u8>; N] = core::array::from_fn(|i| {
+        let mut tr = CircuitTranscript::<H>::init();
+        create_proof::<F, Scheme, _, _>(&inner_srs, &pk, &[circuits[i].clone()], 1, &[&[&[], &all_instances[i][..]]], ChaCha8Rng::seed_from_u64(seed + 100 + i as u64), &mut tr)
+            .expect("inner proof of the dummy circuit");
+        tr.finalize()
+    });
+    // what `aggregate_proofs` computes first, with the same public functions
+    let fb = fixed_bases::<Light>("inner_vk", &vk);
+    let mut accs: Vec<Accumulator<Light>> = vec![];
+    for i in 0..N {
+        let mut tr = CircuitTranscript::<H>::init_from_bytes(&proofs[i]);
+        match prepare::<F, Scheme, _>(&vk, &[&[C::identity()]], &[&[&all_instances[i][..]]], &mut tr) {
+            Ok(g) if g.clone().check(&inner_srs.verifier_params()) => accs.push(Accumulator::<Light>::from_dual_msm(g, "inner_vk", &fb)),
+            other => {
+                ctx.oracle_fail(&format!("{key}:inner-rejected"), "the off-circuit verifier rejects an honest proof of the dummy circuit", json!({"case": desc, "error": format!("{:?}", other.err())}));
+                return;
+            }
+        }
+    }
+    let acc = Accumulator::<Light>::accumulate(&accs);
+    let hash_input: Vec<F> = accs.iter().flat_map(AssignedAccumulator::<Light>::as_public_input).collect();
+    let r = <PoseidonChip<F> as HashCPU<F, F>>::hash(&hash_input);
+    let (normal, committed) = AssignedAccumulator::<Light>::as_public_input_with_committed_scalars(&acc);
+    let bases1: Vec<C> = [acc.rhs().bases(), fb.values().cloned().collect()].concat();
+    let rhs_value = acc.rhs().eval(&fb);
+    // is the pairing (committed scalars, bases1) the value of the right-hand side?  (real group operations)
+    let paired: C = committed.iter().zip(bases1.iter()).map(|(s, b)| b * s).sum();
+    let aligned = committed.len() == bases1.len() && paired == rhs_value;
+    let names: Vec<String> = fb.keys().cloned().collect();
+    ctx.count(&format!("agg-dummy:fixed-names={}", names.len()));
+    ctx.count(&format!("agg-dummy:rhs-fixed-scalars={}", acc.rhs().fixed_base_scalars().len()));
+
+    let agg = match mzkh::catch(|| LightAggregator::<N>::init(&mut srs, &vk).map_err(|e| format!("{e:?}"))) {
+        Ok(Ok(a)) => a,
+        other => {
+            ctx.oracle_fail(&format!("{key}:init"), "LightAggregator::init fails", json!({"case": desc, "result": format!("{:?}", other.err())}));
+            return;
+        }
+    };
+    let meta = match mzkh::catch(|| {
+        let mut t = CircuitTranscript::<Blake2bState>::init();
+        agg.aggregate_proofs(&srs, &all_instances, &proofs, &mut rng, &mut t).map(|_| t.finalize()).map_err(|e| format!("{e:?}"))
+    }) {
+        Ok(Ok(m)) => m,
+        other => {
+            ctx.oracle_fail(&format!("{key}:aggregate"), "aggregate_proofs fails on valid inner proofs", json!({"case": desc, "result": format!("{:?}", other.err())}));
+            return;
+        }
+    };
+    // ---- sections of the real aggregated proof
+    let rd_pt = |b: &[u8]| <C as Hashable<Blake2bState>>::read(&mut &b[..]).ok();
+    let rd_fe = |b: &[u8]| <F as Hashable<Blake2bState>>::read(&mut &b[..]).ok();
+    let parse = || -> Option<(Vec<C>, Vec<F>, Vec<C>, C, C)> {
+        let n = u32::from_le_bytes(meta.get(0..4)?.try_into().ok()?) as usize;
+        let mut o = 4;
+        let lb: Vec<C> = (0..n).map(|i| rd_pt(meta.get(o + 48 * i..o + 48 * (i + 1))?)).collect::<Option<_>>()?;
+        o += 48 * n;
+        let ls: Vec<F> = (0..n).map(|i| rd_fe(meta.get(o + 32 * i..o + 32 * (i + 1))?)).collect::<Option<_>>()?;
+        o += 32 * n;
+        let m = u32::from_le_bytes(meta.get(o..o + 4)?.try_into().ok()?) as usize;
+        o += 4;
+        let rb: Vec<C> = (0..m).map(|i| rd_pt(meta.get(o + 48 * i..o + 48 * (i + 1))?)).collect::<Option<_>>()?;
+        o += 48 * m;
+        Some((lb, ls, rb, rd_pt(meta.get(o..o + 48)?)?, rd_pt(meta.get(o + 48..o + 96)?)?))
+    };
+    let Some((lb, ls, rb, _sigma, c_read)) = parse() else {
+        ctx.oracle_fail(&format!("{key}:sections"), "the aggregated proof does not start with [n][n G][n F][m][m G][sigma][C]", json!({"case": desc, "len": meta.len()}));
+        return;
+    };
+    let hx = |v: &[F]| mzkh::join(&v.iter().map(mzkh::fe_hex).collect::<Vec<_>>());
+    let keys = |v: &[C]| mzkh::join(&v.iter().map(base_key).collect::<Vec<_>>());
+    let line = format!(
+        "agg-layout {} {} {}",
+        names_text(&names),
+        mzkh::fe_hex(&r),
+        accs.iter().map(|a| acc_text(&acc_view::<Light>(a))).collect::<Vec<_>>().join(" ")
+    );
+    let ans = format!("n={} lhs={};{} m={} rhs={} committed={} aligned={}", lb.len(), keys(&lb), hx(&ls), rb.len(), keys(&rb), hx(&committed), aligned as u8);
+    ctx.case("agg-layout", true, &line, &ans);
+    if c_read != rhs_value {
+        ctx.oracle_fail(&format!("{key}:rhs-evaluated"), "the point C of the aggregated proof is not the value of the accumulated right-hand side", json!({"case": desc}));
+    }
+    // instance vectors: prover (from the accumulator) = verifier (from the sections read)
+    let mut pi_prover = AssignedVk::<Light>::as_public_input(&vk);
+    all_instances.iter().for_each(|i| pi_prover.extend(i));
+    let mut pi_verifier = pi_prover.clone();
+    pi_prover.extend(normal);
+    pi_verifier.extend(AssignedMsm::<Light>::as_public_input(&Msm::new(&lb, &ls, &std::collections::BTreeMap::new())));
+    pi_verifier.extend(rb.iter().flat_map(<midnight_aggregator::verif_hooks::FakePoint<C> as Instantiable<F>>::as_public_input));
+    ctx.count_n("agg-dummy:instance-len", pi_prover.len() as u64);
+    if pi_prover != pi_verifier {
+        ctx.oracle_fail(&format!("{key}:instances-differ"), "the instance vector of aggregate_proofs differs from the one verify rebuilds from the aggregated proof", json!({"case": desc}));
+    }
+    // ---- verdicts
+    let honest = verdict(&agg, &srs, &all_instances, &meta);
+    match (&honest, aligned) {
+        (Ok(Ok(())), _) => ctx.count("agg-dummy:honest-accepted"),
+        (other, false) => {
+            // keyed by the condition (not by the sizes): see findings/C20.json
+            ctx.oracle_fail(
+                "agg:unopened-fixed-commitment",
+                "LightAggregator: the aggregated proof over VALID inner proofs is rejected when the inner verifying key has a fixed commitment that no query opens: aggregate_proofs pairs the committed scalars (one per name PRESENT in the accumulator) with the fixed bases of the WHOLE key, so the inner-product argument is run on a false claim",
+                json!({"case": desc, "result": format!("{other:?}"), "fixed_bases": names.len(), "fixed_base_scalars_of_acc": acc.rhs().fixed_base_scalars().len()}),
+            );
+            return;
+        }
+        (other, true) => {
+            ctx.oracle_fail(&format!("{key}:honest-rejected"), "aggregated proof over valid inner proofs is rejected", json!({"case": desc, "result": format!("{other:?}")}));
+            return;
+        }
+    }
+    // corrupted sections (first byte of each + random ones)
+    let n = lb.len();
+    let o_rhs = 4 + n * 80;
+    let o_sigma = o_rhs + 4 + rb.len() * 48;
+    let sections: Vec<(&str, usize, usize)> = vec![
+        ("lhs-count", 0, 4),
+        ("lhs-bases", 4, 4 + n * 48),
+        ("lhs-scalars", 4 + n * 48, o_rhs),
+        ("rhs-count", o_rhs, o_rhs + 4),
+        ("rhs-bases", o_rhs + 4, o_sigma),
+        ("sigma", o_sigma, o_sigma + 48),
+        ("rhs-evaluated", o_sigma + 48, o_sigma + 96),
+    ];
+    for (name, a, b) in &sections {
+        for rep in 0..n_corrupt {
+            let mut bytes = meta.clone();
+            let i = if rep == 0 { *a } else { rng.gen_range(*a..*b) };
+            bytes[i] ^= 1 << (rep % 3);
+            ctx.count(&format!("agg-dummy:section:{name}"));
+            match verdict(&agg, &srs, &all_instances, &bytes) {
+                Ok(Err(_)) => {}
+                Ok(Ok(())) => ctx.oracle_fail(&format!("agg-accepts:section:{name}"), "LightAggregator::verify accepts after an alteration", json!({"case": desc, "offset": i})),
+                Err(p) => ctx.oracle_fail(&format!("agg-panics:section:{name}"), "LightAggregator::verify panics on an altered input", json!({"case": desc, "offset": i, "panic": p})),
+            }
+        }
+    }
+    for i in 0..N {
+        let mut insts = all_instances.clone();
+        insts[i][1] += F::ONE;
+        ctx.count("agg-dummy:inner-public-input");
+        if let Ok(Ok(())) = verdict(&agg, &srs, &insts, &meta) {
+            ctx.oracle_fail("agg-accepts:inner-public-input", "LightAggregator::verify accepts an altered inner public input", json!({"case": desc, "proof": i}));
+        }
+    }
+}
